@@ -7,4 +7,8 @@ import PGV.Props.C17
 #print axioms PGV.Props.C17.C17_botheq_iff
 #print axioms PGV.Props.C17.C17_group_same_object
 #print axioms PGV.Props.C17.C17_group_complete
+#print axioms PGV.Props.C17.dedupKeys_subset
+#print axioms PGV.Props.C17.dedupKeys_append
+#print axioms PGV.Props.C17.C17_independent_objects
+#print axioms PGV.Props.C17.C17_independent_clauses
 #print axioms PGV.Props.C17.C17_scope_is_object
